@@ -51,6 +51,7 @@ def write(run, spec, ded, bnd):
         "wall_s": round(time.time() - run.t0, 2),
         "violations": len(run.violations),
     }
-    os.makedirs(os.path.join(ROOT, "evidence"), exist_ok=True)
-    with open(os.path.join(ROOT, "evidence", f"{run.pid}.json"), "w") as fh:
+    out_root = os.environ.get("VERIF_OUT") or ROOT      # VERIF_OUT: scratch runs (seeded changes) write elsewhere
+    os.makedirs(os.path.join(out_root, "evidence"), exist_ok=True)
+    with open(os.path.join(out_root, "evidence", f"{run.pid}.json"), "w") as fh:
         json.dump(ev, fh, indent=1, default=repr)
